@@ -31,6 +31,8 @@ def declarations(an, source=None):
         return [(d, prog, crate, False) for d in data["decls"]], data.get("errors", [])
     from ..core import sub_hash
     files = [os.path.join(VERIF, "corpus", "src", "lib.rs")]
+    if not os.path.isfile(DECLSCAN):
+        raise SystemExit("declscan not built (run ./setup.sh)")
     unit_of = {files[0]: ("corpus", "verif_corpus", False)}
     for pat, crate, test in REPO_UNITS:
         for f in sorted(glob.glob(os.path.join(REPO, pat))):
